@@ -450,6 +450,47 @@ theorem deref_single_field_accepted (c : Ctx) (m : TraitMeta) (me : TraitId) (hm
   simp only [hk, flagTypeFromMeta, hm, if_true, ok_bind_eq, hv, List.headD, hf, derefPick, hfa]
   exact ⟨_, rfl⟩
 
+/-! ### parameters -/
+
+/-- The switch a parameter addresses, if it names one. -/
+def paramKey {σ : Type} (specs : List (PSpec σ)) (p : Param) : Option String :=
+  (p.ident.bind (findSpec specs)).map (·.key)
+
+/-- **Converse of the refusal theorems**: a parameter list in which every parameter names an enabled switch of the
+    position with a well-formed value, and no switch is addressed twice, is accepted. -/
+theorem runParams_accepts {σ : Type} (m : TraitMeta) (specs : List (PSpec σ)) (ps : List Param) (seen : List String) (st : σ)
+    (hgood : ∀ p ∈ ps, ∃ n s, p.ident = some n ∧ findSpec specs n = some s ∧ s.enabled = true ∧ ∀ st', IsOk (s.apply p.form st'))
+    (hnd : (ps.filterMap (paramKey specs)).Nodup)
+    (hseen : ∀ k ∈ ps.filterMap (paramKey specs), k ∉ seen) :
+    IsOk (runParams m specs ps seen st) := by
+  induction ps generalizing seen st with
+  | nil => exact ⟨_, rfl⟩
+  | cons p ps ih =>
+    obtain ⟨n, s, hn, hs, hen, happ⟩ := hgood p (by simp)
+    obtain ⟨st', hst'⟩ := happ st
+    have hk : paramKey specs p = some s.key := by simp [paramKey, hn, hs]
+    have hnotseen : seen.contains s.key = false := by
+      have := hseen s.key (by simp [hk])
+      simpa using this
+    simp only [runParams, hn, hs, hen, Bool.not_true, Bool.false_eq_true, if_false, hst', hnotseen]
+    apply ih
+    · intro q hq; exact hgood q (by simp [hq])
+    · rw [List.filterMap_cons, hk] at hnd; exact (List.nodup_cons.mp hnd).2
+    · intro k hkmem
+      rw [List.filterMap_cons, hk] at hnd
+      have hne : k ≠ s.key := fun h => (List.nodup_cons.mp hnd).1 (h ▸ hkmem)
+      have := hseen k (by simp [hk, hkmem])
+      simp only [List.mem_cons, not_or]
+      exact ⟨hne, this⟩
+
+/-- Non-vacuity / instance: `Ord(rank = 3, method(m), ignore = false)` at a field. -/
+example :
+    let ps : List Param := [ { ident := some "rank", pathStr := "rank", form := .nv { tok := .lit (.int (some 3) ""), text := "3" } },
+                             { ident := some "method", pathStr := "method", form := .list { tok := .ident "m", text := "m" } },
+                             { ident := some "ignore", pathStr := "ignore", form := .nv { tok := .lit (.bool false), text := "false" } } ]
+    cmpFieldFromMeta { ignore := true, method := true, rank := true } { ident := some "Ord", form := .list (some ps) none none }
+      = .ok { ignore := false, method := some "m", rank := some 3 } := by rfl
+
 /-- Non-vacuity: `#[educe(Debug, Clone, PartialEq, Eq, PartialOrd, Ord, Hash)] struct S<T> { a: u8, b: T }`
     meets the hypotheses of `expand_plain_accepted`. -/
 example :
